@@ -128,6 +128,17 @@ def check_pair(c, l):
 
 
 def classify(c, l):
+    """known-finding class: cubic whose leading coefficient along the line's normal is tiny but above the solver's
+    1e-9 threshold (Cardano then divides by it and loses the roots to cancellation)"""
+    if len(c.points) == 4:
+        try:
+            c1 = c.transformed(l.alignmentTransformation())
+            pa, pb, pc, pd = [p.y for p in c1.points]
+            a = 3 * pa - 6 * pb + 3 * pc; b = -3 * pa + 3 * pb; cc = pa; d = -pa + 3 * pb - 3 * pc + pd
+            m = max(abs(a), abs(b), abs(cc))
+            if m > 0 and 1e-9 < abs(d) / m <= 1e-4: return 'C05-near-degenerate-cubic'
+        except Exception:
+            pass
     return 'C05-general'
 
 
